@@ -58,15 +58,42 @@ func runC34(c *core.Ctx) {
 		if fn == nil {
 			continue
 		}
-		// the comparison num <= T
+		// the comparison of num with the threshold T, in any spelling: num <= T / num < T reject on the true
+		// edge, num > T / num >= T accept on it; operands may be swapped
 		var cmp *ssa.BinOp
 		var cmpCond ir.Cond
+		var numSide ssa.Value
+		var thrSide ssa.Value
+		var op token.Token
 		for _, cd := range ir.Conds(fn) {
-			if b, ok := cd.V.(*ssa.BinOp); ok && b.Op == token.LEQ {
-				if p, _, release := phiVia(b.X, fn); p != nil {
-					release()
-					cmp, cmpCond = b, cd
+			b, ok := cd.V.(*ssa.BinOp)
+			if !ok {
+				continue
+			}
+			switch b.Op {
+			case token.LEQ, token.LSS, token.GTR, token.GEQ:
+			default:
+				continue
+			}
+			// the counter of active members: a value carried by the loop over the pool (not an index of
+			// some other loop that is also compared with a length)
+			isPoolCounter := func(v ssa.Value) bool {
+				p, host, release := phiVia(v, fn)
+				defer release()
+				if p == nil {
+					return false
 				}
+				for _, lp := range eng.FindMapLoops(host, func(x ssa.Value) bool { return isFieldNamed(x, "PeerPoolMap") }) {
+					if lp.Header == p.Block() {
+						return true
+					}
+				}
+				return false
+			}
+			if isPoolCounter(b.X) {
+				cmp, cmpCond, numSide, thrSide, op = b, cd, b.X, b.Y, b.Op
+			} else if isPoolCounter(b.Y) {
+				cmp, cmpCond, numSide, thrSide, op = b, cd, b.Y, b.X, relMirror(b.Op)
 			}
 		}
 		if cmp == nil {
@@ -75,28 +102,34 @@ func runC34(c *core.Ctx) {
 		}
 		// T as a tree over L = len(params.PeerPubkeyList) (0 for QuitNode)
 		isL := eng.IsLenOf(func(v ssa.Value) bool { return isFieldNamed(v, "PeerPubkeyList") })
-		tree, err := eng.ExtractExpr(cmp.Y, isL)
+		tree, err := eng.ExtractExpr(thrSide, isL)
 		if err != nil {
 			c.Broken("C34.min-size", fn, "threshold tree", c.P.Rel(cmp.Pos()), err.Error())
 			continue
 		}
-		// accepted iff num > T  <=>  num >= T+1 ; required: num - removed >= MIN  <=>  num >= MIN + removed
+		// accepted iff num >= A, with A = T+1 for (num <= T rejects | num > T accepts), A = T for (num < T | num >= T);
+		// required: num - removed >= MIN  <=>  num >= MIN + removed
 		removed := eng.K(1)
 		if name == "BlackNode" {
 			removed = eng.N()
 		}
-		ok, why := eng.EqualForAll(eng.Add(tree, eng.K(1)), eng.Add(eng.K(mp), removed), 0)
+		lower := tree
+		if op == token.LEQ || op == token.GTR {
+			lower = eng.Add(tree, eng.K(1))
+		}
+		acceptOnTrue := op == token.GTR || op == token.GEQ
+		ok, why := eng.EqualForAll(lower, eng.Add(eng.K(mp), removed), 0)
 		c.Decide(ok, "C34.min-size", fn, "accepted iff (active members − removed) >= MIN_PEER_NUM", c.P.Rel(cmp.Pos()), why+" [N = number removed]")
 		guard := eng.NamedGuard{Name: "enough active members remain", G: func(cd ir.Cond) (bool, bool) {
 			if cd.If == cmpCond.If {
-				return true, false
+				return true, acceptOnTrue
 			}
 			return false, false
 		}}
 		sinks := ir.CallSinks(ir.CallsTo(fn, ppm), "putPeerPoolMap")
 		eng.Dominates(c, "C34.min-size", fn, guard, sinks, "putPeerPoolMap", nil)
 		// num counts Candidate|Consensus entries of the current view
-		numPhi, host, release := phiVia(cmp.X, fn)
+		numPhi, host, release := phiVia(numSide, fn)
 		checkActiveCount(c, host, numPhi, gppm, gv)
 		release()
 	}
